@@ -503,3 +503,92 @@ Example f32_to_f64_examples :
   f32_to_f64 8388607 = 4039728864677593088 /\         (* the greatest subnormal 0x007FFFFF -> 0x380FFFFFC0000000 *)
   f32_to_f64 4286578688 = F_NEG_INF /\ f32_to_f64 2143289344 = F_NAN /\ f32_to_f64 2147483648 = 9223372036854775808.
 Proof. vm_compute. repeat split. Qed.
+
+(* ================================================================================================================ *)
+(* the Encoder only appends, WITHOUT any size hypothesis: reserve_jentries appends, encode_value appends, and every
+   replace_jentry patches an index at or behind the position where the call started.  So Value::write_to_vec and
+   LazyValue::write_to_vec keep the caller's bytes for every value (the layout theorem write_to_vec_spec needs wf_size). *)
+
+Lemma patch_frame pre : forall b i w, patch (pre ++ b) (length pre + i) w = pre ++ patch b i w.
+Proof. induction pre as [|p pre IH]; intros b i w; cbn [app length patch Nat.add]; [reflexivity|]. f_equal. apply IH. Qed.
+
+Definition framed (v : value) : Prop :=
+  forall pre b, encode_value (pre ++ b) v = (pre ++ fst (encode_value b v), snd (encode_value b v)).
+
+Lemma enc_values_frame (l : list value) : Forall framed l -> forall pre b i acc,
+  enc_values encode_value (pre ++ b) (length pre + i) acc l
+  = (pre ++ fst (fst (enc_values encode_value b i acc l)), (length pre + snd (fst (enc_values encode_value b i acc l)))%nat,
+     snd (enc_values encode_value b i acc l)).
+Proof.
+  induction l as [|x r IH]; intros HF pre b i acc; [reflexivity|].
+  inversion HF as [|? ? Hx Hr]; subst. cbn [enc_values]. rewrite (Hx pre b).
+  destruct (encode_value b x) as [b1 j]. cbn [fst snd]. unfold replace_jentry.
+  rewrite patch_frame. replace (length pre + i + 4)%nat with (length pre + (i + 4))%nat by lia.
+  apply IH. exact Hr.
+Qed.
+Lemma enc_members_frame (o : list (list N * value)) : Forall (fun kv => framed (snd kv)) o -> forall pre b i acc,
+  enc_members encode_value (pre ++ b) (length pre + i) acc o
+  = (pre ++ fst (fst (enc_members encode_value b i acc o)), (length pre + snd (fst (enc_members encode_value b i acc o)))%nat,
+     snd (enc_members encode_value b i acc o)).
+Proof.
+  induction o as [|[k x] r IH]; intros HF pre b i acc; [reflexivity|].
+  inversion HF as [|? ? Hx Hr]; subst. cbn [snd] in Hx. cbn [enc_members]. rewrite (Hx pre b).
+  destruct (encode_value b x) as [b1 j]. cbn [fst snd]. unfold replace_jentry.
+  rewrite patch_frame. replace (length pre + i + 4)%nat with (length pre + (i + 4))%nat by lia.
+  apply IH. exact Hr.
+Qed.
+Lemma enc_keys_frame (o : list (list N * value)) : forall pre b i acc,
+  enc_keys (pre ++ b) (length pre + i) acc o
+  = (pre ++ fst (fst (enc_keys b i acc o)), (length pre + snd (fst (enc_keys b i acc o)))%nat, snd (enc_keys b i acc o)).
+Proof.
+  induction o as [|[k x] r IH]; intros pre b i acc; [reflexivity|].
+  cbn [enc_keys]. unfold replace_jentry. rewrite <- app_assoc.
+  rewrite patch_frame. replace (length pre + i + 4)%nat with (length pre + (i + 4))%nat by lia.
+  apply IH.
+Qed.
+
+Theorem encode_value_framed : forall v, framed v.
+Proof.
+  induction v as [|b0|s|n|l IH|o IH] using value_ind2; intros pre b.
+  - reflexivity.
+  - destruct b0; reflexivity.
+  - cbn [encode_value fst snd]. rewrite app_assoc. reflexivity.
+  - cbn [encode_value fst snd]. rewrite app_assoc. reflexivity.
+  - cbn [encode_value]. unfold reserve_jentries.
+    set (h := be32 (header_word ARRAY_CONTAINER_TAG (lenN l))). set (n := (length l * 4)%nat).
+    set (B := (b ++ h) ++ repeat 0 n). set (I := length (b ++ h)).
+    replace (((pre ++ b) ++ h) ++ repeat 0 n) with (pre ++ B) by (unfold B; rewrite <- !app_assoc; reflexivity).
+    replace (length ((pre ++ b) ++ h)) with (length pre + I)%nat by (unfold I; rewrite !app_length; lia).
+    rewrite (enc_values_frame l IH pre B I).
+    destruct (enc_values encode_value B I (4 + lenN l * 4) l) as [[b3 i3] len]. reflexivity.
+  - cbn [encode_value]. unfold reserve_jentries.
+    set (h := be32 (header_word OBJECT_CONTAINER_TAG (lenN o))). set (n := (length o * 8)%nat).
+    set (B := (b ++ h) ++ repeat 0 n). set (I := length (b ++ h)).
+    replace (((pre ++ b) ++ h) ++ repeat 0 n) with (pre ++ B) by (unfold B; rewrite <- !app_assoc; reflexivity).
+    replace (length ((pre ++ b) ++ h)) with (length pre + I)%nat by (unfold I; rewrite !app_length; lia).
+    rewrite (enc_keys_frame o pre B I).
+    destruct (enc_keys B I (4 + lenN o * 8) o) as [[b3 i3] len]. cbn [fst snd].
+    rewrite (enc_members_frame o IH pre b3 i3).
+    destruct (enc_members encode_value b3 i3 len o) as [[b4 i4] len']. reflexivity.
+Qed.
+
+Theorem write_to_vec_frame v pre b : write_to_vec (pre ++ b) v = pre ++ write_to_vec b v.
+Proof.
+  unfold write_to_vec.
+  destruct v as [|b0|s|n|l|o];
+    try (rewrite (encode_value_framed _ pre b); reflexivity).
+  all: unfold reserve_jentries; cbv beta iota zeta.
+  all: set (h := be32 SCALAR_CONTAINER_TAG).
+  all: replace (((pre ++ b) ++ h) ++ repeat 0 4) with (pre ++ ((b ++ h) ++ repeat 0 4)) by (rewrite <- !app_assoc; reflexivity).
+  all: replace (length ((pre ++ b) ++ h)) with (length pre + length (b ++ h))%nat by (rewrite !app_length; lia).
+  all: rewrite (encode_value_framed _ pre ((b ++ h) ++ repeat 0 4)).
+  all: match goal with |- context [encode_value ?B ?V] => destruct (encode_value B V) as [b3 j] end.
+  all: cbn [fst snd]; unfold replace_jentry; cbn [fst]; apply patch_frame.
+Qed.
+
+Theorem write_to_vec_only_appends v buf : write_to_vec buf v = buf ++ write_to_vec [] v.
+Proof. rewrite <- (app_nil_r buf) at 1. apply write_to_vec_frame. Qed.
+Theorem lazy_write_to_vec_frame l pre b : lazy_write_to_vec (pre ++ b) l = pre ++ lazy_write_to_vec b l.
+Proof. destruct l as [v|bs]; cbn [lazy_write_to_vec]; [apply write_to_vec_frame|rewrite app_assoc; reflexivity]. Qed.
+Theorem lazy_write_to_vec_only_appends l buf : lazy_write_to_vec buf l = buf ++ lazy_write_to_vec [] l.
+Proof. rewrite <- (app_nil_r buf) at 1. apply lazy_write_to_vec_frame. Qed.
